@@ -279,6 +279,8 @@ ExecSetKey(st, S, F) ==
 ExecCall(st, S, F) ==
   CASE st.f = "f" -> IF F.constFold THEN Bind(S, st.a, RefV(FConst), S.h)
                      ELSE BindNew(S, st.a, NewList(<<IntV(1), IntV(2)>>, S.h))
+    \* def f2(): return [[2], [1]]     a nested literal: every evaluation allocates the outer AND the inner lists afresh
+    [] st.f = "f2" -> BindNew(S, st.a, Alloc(Lits[4], S.h, FALSE))
     [] st.f = "h" -> Bind(S, st.a, RefV(HDefault), S.h)
     [] st.f = "g" -> IF Def(S, st.x) THEN Bind(S, st.a, S.env[st.x], S.h) ELSE Fail(S)
     [] st.f = "k" -> IF ~Def(S, st.x) \/ ~IsList(S.env[st.x], S.h) THEN Fail(S)
@@ -525,6 +527,7 @@ Menu ==
                                 \cup {St("aug", a, "", "", n, "", E, FALSE) : a \in Vars, n \in AugLits} ELSE {},
     IF "setidx" \in Kinds THEN {St("setidx", a, "", y, n, "", E, FALSE) : a \in Vars, y \in Vars \cup {""}, n \in {0, 0 - 1}} ELSE {},
     IF "setkey" \in Kinds THEN {St("setkey", a, "", y, 0, "", k, FALSE) : a \in Vars, y \in Vars \cup {""}, k \in KeyMenu} ELSE {},
+    IF "call2"  \in Kinds THEN {St("call", a, "", "", 0, "f2", E, FALSE) : a \in Vars} ELSE {},
     IF "call"   \in Kinds THEN {St("call", a, "", "", 0, f, E, FALSE) : a \in Vars, f \in {"f", "h"}}
                                 \cup {St("call", a, x, "", 0, f, E, FALSE) : a \in Vars, x \in Vars, f \in {"g", "k", "m"}} ELSE {},
     IF "compr"  \in Kinds THEN {St("compr", a, x, "", 0, f, E, FALSE) : a \in Vars, x \in Vars, f \in {"copy", "filt", "wrap", "dbl"}} ELSE {},
@@ -548,7 +551,13 @@ Init == prog = <<>> /\ sp = InitState /\ sa = [c \in Configs |-> InitState]
 Step(st, S, F) == IF S.ok THEN Exec(st, S, F) ELSE S          \* a rejected program stays rejected
 Mutator(st) == st.k \in {"aug", "setidx", "setkey", "forlit"} \/ (st.k = "call" /\ st.f \in {"k", "m"})
 ShapeOK(st) == \/ Shape = "free"
-               \/ /\ Len(prog) = 0 => st.k = "lit"
+               \* x = f2() ; y = x[i] ; y[j] = .. ; z = f2()   (is a nested literal's inner list shared between evaluations?)
+               \/ /\ Shape = "nested-twice"
+                  /\ Len(prog) \in {0, 3} => (st.k = "call" /\ st.f = "f2")
+                  /\ Len(prog) = 1 => st.k = "getidx"
+                  /\ Len(prog) = 2 => st.k = "setidx"
+               \/ /\ Shape = "mutate-last"
+                  /\ Len(prog) = 0 => st.k = "lit"
                   /\ Len(prog) = MaxStmts - 1 => Mutator(st)
                   /\ (0 < Len(prog) /\ Len(prog) < MaxStmts - 1) => ~Mutator(st)
 Next == /\ Len(prog) < MaxStmts
@@ -613,6 +622,9 @@ EmitCase == Emit => PrintT(<<"CASE", ToJson([prog |-> prog, expect |-> Snap(sp),
 VarsXY    == {"x", "y"}
 VarsXYZ   == {"x", "y", "z"}
 KindsC16  == {"lit", "alias", "aug", "setidx", "setkey", "call", "compr", "slice", "getidx", "getkey", "un", "bin", "hof", "forlit", "strm"}
+KindsConcat == {"lit", "alias", "binlit", "setidx"}      \* x + [] / [] + x and friends, then a mutation
+KindsNested == {"call2", "getidx", "setidx"}
+LitsConcat == {1, 2, 4}
 KindsC18  == {"lit", "compr", "slice", "getidx", "getkey", "un", "bin", "binlit", "hof"}        \* no mutation: C18 is about reading imported values
 LitsAll   == 1..Len(Lits)
 LitsSmall == {1, 3, 4, 5, 12}
